@@ -140,6 +140,7 @@ def run(ctx):
     other_database_runs(ctx)
     inside_atomic_runs(ctx)
     unmanaged_model_runs(ctx)
+    rename_plus_new_model_runs(ctx)
     migration_runs(ctx, quick)
     migration_app_runs(ctx)
     ncases = 9 if quick else 120
@@ -468,6 +469,63 @@ def inside_atomic_runs(ctx):
                 ctx.fail(None, 'upgrade inside the caller\'s transaction, RELEASE SAVEPOINT #%d fails: %s' % (k, p), repk)
 
 
+def created_payload_problems(tr, table_of):
+    """creating_models / created_models name exactly the models whose CREATE TABLE ran between the two signals
+    (`table_of`: model name -> table name, for the models of the case)"""
+    import re
+    problems, cur = [], None
+    for e in tr.events:
+        if e[0] == 'signal' and e[1] == 'creating_models':
+            cur = {'models': list(e[2].get('models', [])), 'tables': []}
+        elif e[0] == 'sql' and cur is not None:
+            m = re.match(r'\s*CREATE TABLE "([^"]+)"', e[1])
+            if m:
+                cur['tables'].append(m.group(1))
+        elif e[0] == 'signal' and e[1] == 'created_models' and cur is not None:
+            want = sorted(table_of[n.split('.')[-1]] for n in cur['models'] if n.split('.')[-1] in table_of)
+            have = sorted(t for t in cur['tables'] if t in table_of.values())
+            if want != have:
+                problems.append('creating/created_models name %s, the tables created between the two signals are %s'
+                                % (cur['models'], have))
+            cur = None
+    return problems
+
+
+def rename_plus_new_model_runs(ctx):
+    """one release renames a model (and its table) through an evolution and adds a new model: the renamed model is not
+    a created one"""
+    def fld(name, t, related=None, **attrs):
+        return {'name': name, 'type': t, 'attrs': attrs, 'related': related}
+
+    def mdl(name, table, fields):
+        return {'name': name, 'table': table, 'unique_together': [], 'index_together': [], 'indexes': [],
+                'constraints': [], 'fields': [fld('id', 'AutoField', primary_key=True)] + fields}
+    spec0 = {'apps': [{'id': 'vapp', 'models': [mdl('Author', 'vapp_author', [fld('name', 'IntegerField', null=True)])]}]}
+    spec1 = {'apps': [{'id': 'vapp', 'models': [mdl('Writer', 'vapp_writer', [fld('name', 'IntegerField', null=True)]),
+                                                 mdl('Book', 'vapp_book', [fld('pages', 'IntegerField', null=True)])]}]}
+    from django_evolution.mutations import RenameModel
+    evorig.fresh_databases()
+    evorig.clear_evolutions()
+    evorig.install_models(spec0)
+    if evorig.run_evolver()[0] != 'ok':
+        ctx.count('rename_plus_new_model:start_failed')
+        return
+    evorig.install_models(spec1)
+    evorig.set_evolutions('vapp', [{'label': 'rename_author',
+                                    'mutations': [RenameModel('Author', 'Writer', db_table='vapp_writer')]}])
+    tr = evorig.Trace()
+    r = evorig.run_evolver(trace=tr)
+    rep = {'scenario': 'a release renames a model (new table) and adds a model', 'signals': tr.signals()}
+    ctx.count('rename_plus_new_model:%s' % r[0])
+    ctx.case({'scenario': rep['scenario'], 'signals': [x[0] for x in tr.signals()]}, nontrivial=True, sample_cap=1)
+    if r[0] != 'ok':
+        ctx.fail(None, 'a release that renames a model and adds another fails: %s' % str(r[1])[:150], rep)
+        return
+    table_of = {'Writer': 'vapp_writer', 'Book': 'vapp_book', 'Author': 'vapp_author'}
+    for p in check_trace(tr, 'ok') + saved_problems(tr) + created_payload_problems(tr, table_of):
+        ctx.fail(None, 'rename plus new model: %s' % p, rep)
+
+
 def unmanaged_model_runs(ctx):
     """a release that adds a regular model and a model that Django does not manage (Meta.managed = False): whatever
     created_models names was created between the pair - fault-free, and nothing is announced that was not done"""
@@ -500,6 +558,8 @@ def unmanaged_model_runs(ctx):
         ctx.fail(None, 'release with an unmanaged model: %s' % p, rep)
     schema = dbrig.abs_schema()
     tables = {'Shelf': 'vapp_shelf', 'Legacy': 'vapp_legacy', 'Alpha': 'vapp_alpha'}
+    for p in created_payload_problems(tr, tables):
+        ctx.fail(None, 'release with an unmanaged model: %s' % p, rep)
     named = [nm for n, info in tr.signals() if n == 'created_models' for nm in info.get('models', [])]
     for nm in named:
         t = tables.get(nm.split('.')[-1])
